@@ -11,6 +11,7 @@
 import MosVerif.Lemmas.TranslatedC15
 import MosVerif.Lemmas.LimiterSpec
 import MosVerif.Lemmas.LimiterGc
+import MosVerif.Lemmas.LimiterClock
 import MosVerif.Lemmas.LimiterConc
 import MosVerif.Lemmas.LimiterListener
 import MosVerif.Generated.Facts
@@ -36,7 +37,8 @@ theorem bucket_bound (c : Opts) (os : List Op) (hs : sortedOps os = true) (k : A
   have hp := specLimit_pos c
   have : (ClientLimiter.new c).opts = c.setDefault := rfl
   rw [this] at h
-  have hr : (ClientLimiter.new c).runOps os = (ClientLimiter.new c).runOpsWith true os := rfl
+  have hr : (ClientLimiter.new c).runOps os = (ClientLimiter.new c).runOpsAtWith true os :=
+    runOpsWith_eq_at true os _ 0 (ClientLimiter.seenLe_new c 0) (sortedFrom_of_sortedOps os hs)
   rw [hr]
   omega
 
@@ -61,6 +63,42 @@ example : (ClientLimiter.new ⟨1, 5, 0, 0⟩).runOps
     [.allow ⟨.v4 0xC0000207, 0, 5⟩, .allow ⟨.v4 0xC0000208, 0, 1⟩, .allow ⟨.v4 0xC0000307, 0, 1⟩]
     = [true, false, true] := by decide
 
+/-! ## time stamps in any order (repair f8b61d0) -/
+
+/-- ★ **bucket_bound_any_order.**  `AllowN` takes the caller's time stamp, and a caller that is
+    delayed between `time.Now()` and the bucket's lock arrives with an older one.  For every
+    configuration, after any history `pre` (arrivals, gc passes), for every run `mid` of
+    consecutive arrivals with time stamps in ANY order and every subnet key `k`: the cost admitted
+    for `k` in `mid` is at most `burst + rate × (newest − oldest time stamp of k's arrivals in
+    mid)` plus the truncation slack.  (The bucket's effective clock is the newest time stamp it
+    has seen.) -/
+theorem bucket_bound_any_order (c : Opts) (pre : List Op) (mid : List Ev) (k : Addr) :
+    admittedK c.setDefault k mid (((ClientLimiter.new c).afterOps pre).run mid) * nano
+      ≤ specBurst c * nano + specLimit c * spanK c.setDefault k mid + (specLimit c - 1) := by
+  have ho : ((ClientLimiter.new c).afterOps pre).opts = c.setDefault := ClientLimiter.afterOps_opts pre _
+  have hL : ((ClientLimiter.new c).afterOps pre).limit = specLimit c := limit_of_opts c _ ho
+  have hB : ((ClientLimiter.new c).afterOps pre).burst = specBurst c := burst_of_opts c _ ho
+  have h := any_order_bound k mid ((ClientLimiter.new c).afterOps pre) (hL ▸ specLimit_pos c)
+    (ClientLimiter.ok_afterOps pre _ (new_limit_pos c) (ClientLimiter.ok_new c))
+  rw [ho, hL, hB] at h
+  have hp := specLimit_pos c
+  omega
+
+/-- **witness for the repaired defect** (f8b61d0): without the clamp (`runAt`: the time stamp is
+    handed to `rate.Limiter` as it comes) the bound is false — rate 2/s, burst 2, a fresh
+    caller (t = 2 s) alternating with a caller that is 1 s late (t = 1 s): every stale
+    admission moves the bucket's `last` back and the next fresh one is credited the second
+    again; 6 admitted where `burst + rate × (2 s − 1 s)` = 4.  With the clamp: 2. -/
+theorem unclamped_breaks_bound :
+    let c : Opts := ⟨2, 2, 0, 0⟩
+    let a : Addr := .v4 0xC0000207
+    let es : List Ev := [⟨a, 2 * nano, 1⟩, ⟨a, 1 * nano, 1⟩, ⟨a, 2 * nano, 1⟩, ⟨a, 1 * nano, 1⟩, ⟨a, 2 * nano, 1⟩, ⟨a, 1 * nano, 1⟩]
+    (ClientLimiter.new c).runAt es = [true, true, true, true, true, true] ∧
+    ¬ (admittedK c.setDefault (.v4 0xC0000200) es ((ClientLimiter.new c).runAt es) * nano
+        ≤ specBurst c * nano + specLimit c * spanK c.setDefault (.v4 0xC0000200) es + (specLimit c - 1)) ∧
+    (ClientLimiter.new c).run es = [true, true, false, false, false, false] := by
+  decide
+
 /-! ## isolation -/
 
 /-- ★ **isolation.**  For every configuration and every history (no ordering assumption, gc
@@ -69,7 +107,7 @@ example : (ClientLimiter.new ⟨1, 5, 0, 0⟩).runOps
 theorem isolation (c : Opts) (os : List Op) (k : Addr) :
     decisionsFor c.setDefault k os ((ClientLimiter.new c).runOps os)
       = (ClientLimiter.new c).runOps (onlyKey c.setDefault k os) :=
-  isolation_gen gcRequiresFull k os (ClientLimiter.new c) (ClientLimiter.new c) rfl rfl
+  isolation_clamped gcRequiresFull k os (ClientLimiter.new c) (ClientLimiter.new c) rfl rfl
 
 /-- two histories with the same arrivals of `k` (and the same gc passes) give `k` the same verdicts -/
 theorem isolation_two_histories (c : Opts) (os os' : List Op) (k : Addr)
@@ -85,6 +123,17 @@ example : onlyKey (Opts.setDefault ⟨0, 0, 0, 0⟩) (.v4 0xC0000200)
 
 /-! ## garbage collection -/
 
+theorem evs_sorted_of_ops : ∀ (os : List Op) (τ : Nat), sortedFrom τ os → sortedEvs τ (Op.evs os)
+  | [], _, _ => trivial
+  | .gc now _ :: os, τ, h => by
+    have := evs_sorted_of_ops os now h.2
+    simp only [Op.evs]
+    cases hh : Op.evs os with
+    | nil => trivial
+    | cons e es => rw [hh] at this; exact ⟨Nat.le_trans h.1 this.1, this.2⟩
+  | .allow e :: os, τ, h => ⟨h.1, evs_sorted_of_ops os e.t h.2⟩
+
+
 /-- **gc_transparent.**  With the fullness requirement of the repaired `gc` the verdicts of a
     time-ordered history are those of its arrivals alone: gc passes are unobservable
     (for configurations within the dependency's range, `saneBurst`). -/
@@ -92,9 +141,14 @@ theorem gc_transparent (c : Opts) (os : List Op) (hs : sortedOps os = true) (hb 
     (ClientLimiter.new c).runOps os = (ClientLimiter.new c).run (Op.evs os) := by
   have hsane : (ClientLimiter.new c).burst * nano ≤ (ClientLimiter.new c).limit * maxDuration := by
     rw [new_limit, new_burst]; simpa [saneBurst] using hb
-  exact gc_transparent_gen os _ _ 0
+  have h1 : (ClientLimiter.new c).runOps os = (ClientLimiter.new c).runOpsAtWith true os :=
+    runOpsWith_eq_at true os _ 0 (ClientLimiter.seenLe_new c 0) (sortedFrom_of_sortedOps os hs)
+  have h2 := gc_transparent_gen os (ClientLimiter.new c) (ClientLimiter.new c) 0
     (GcSim.refl _ 0 (fun k => (Bucket.inv_fresh _ (new_limit_pos c) 0).2))
     (sortedFrom_of_sortedOps os hs) hsane
+  have h3 := run_eq_at (Op.evs os) (ClientLimiter.new c) 0 (ClientLimiter.seenLe_new c 0)
+    (evs_sorted_of_ops os 0 (sortedFrom_of_sortedOps os hs))
+  rw [h1, h2, h3]
 
 /-- **witness for the repaired defect** (commit 0275661): with the *old* gc condition
     (`lastSeen.Before(ddl)` alone) the bound is false — rate 1/s, burst 200: 200 admitted at
@@ -357,34 +411,33 @@ theorem init_shape (cfg : LimiterConfig) :
 
 /-- ★ **refusal_action.**  At every admission point, if the limiter refuses the charged
     address then nothing is handed to `handleServerReq` (so nothing is forwarded); a UDP or TCP
-    query is answered with RCODE REFUSED, an HTTP request with status 503.  (DoQ closes the
-    stream; connection-level refusals close the connection.) -/
+    query (tcp and gnet listeners) is answered with RCODE REFUSED, an HTTP request (http and
+    fasthttp listeners) with status 503.  (DoQ closes the stream; connection-level refusals
+    close the connection.) -/
 theorem refusal_action (l : ResLimiter) (p : Point) (oc : Bool) (addr : Addr) (now : Nat)
     (h : (limiterAllowN l addr now p.cost).1 ≠ .ok) :
     (admission l p oc addr now).1.forwards = false ∧
-    (p = .udpQuery ∨ p = .tcpQuery → (admission l p oc addr now).1 = .respRefused) ∧
-    (p = .httpQuery → (admission l p oc addr now).1 = .http503) := by
+    (p = .udpQuery ∨ p = .tcpQuery ∨ p = .gnetQuery → (admission l p oc addr now).1 = .respRefused) ∧
+    (p = .httpQuery ∨ p = .fasthttpQuery → (admission l p oc addr now).1 = .http503) := by
   unfold admission
-  by_cases hoc : p = .tcpQuery ∧ oc = true
+  by_cases hoc : (p = .tcpQuery ∨ p = .gnetQuery) ∧ oc = true
   · rw [if_pos hoc]
     obtain ⟨hp, _⟩ := hoc
-    subst hp
-    simp [Point.onRefused, Action.forwards]
+    rcases hp with hp | hp <;> subst hp <;> simp [Point.onRefused, Action.forwards]
   · rw [if_neg hoc]
     simp only [h, if_false]
     cases p <;> simp [Point.onRefused, Action.forwards]
 
-/-- conversely a query is handled only after the limiter said yes (and, on TCP, the
-    connection is below its concurrency cap) -/
+/-- conversely a query is handled only after the limiter said yes (and, on the tcp and gnet
+    listeners, the connection is below its concurrency cap) -/
 theorem handled_only_if_admitted (l : ResLimiter) (p : Point) (oc : Bool) (addr : Addr) (now : Nat)
     (h : (admission l p oc addr now).1.forwards = true) :
-    (limiterAllowN l addr now p.cost).1 = .ok ∧ ¬ (p = .tcpQuery ∧ oc = true) := by
+    (limiterAllowN l addr now p.cost).1 = .ok ∧ ¬ ((p = .tcpQuery ∨ p = .gnetQuery) ∧ oc = true) := by
   unfold admission at h
-  by_cases hoc : p = .tcpQuery ∧ oc = true
+  by_cases hoc : (p = .tcpQuery ∨ p = .gnetQuery) ∧ oc = true
   · rw [if_pos hoc] at h
     obtain ⟨hp, _⟩ := hoc
-    subst hp
-    simp [Point.onRefused, Action.forwards] at h
+    rcases hp with hp | hp <;> subst hp <;> simp [Point.onRefused, Action.forwards] at h
   · rw [if_neg hoc] at h
     refine ⟨?_, hoc⟩
     by_cases hr : (limiterAllowN l addr now p.cost).1 = .ok
@@ -406,16 +459,6 @@ example : (limiterAllowN (ResLimiter.init ⟨0, ⟨1, 1, 0, 0⟩⟩) (.v4 1) 0 (
 
 /-! ## the model meets the executable specification -/
 
-theorem evs_sorted_of_ops : ∀ (os : List Op) (τ : Nat), sortedFrom τ os → sortedEvs τ (Op.evs os)
-  | [], _, _ => trivial
-  | .gc now _ :: os, τ, h => by
-    have := evs_sorted_of_ops os now h.2
-    simp only [Op.evs]
-    cases hh : Op.evs os with
-    | nil => trivial
-    | cons e es => rw [hh] at this; exact ⟨Nat.le_trans h.1 this.1, this.2⟩
-  | .allow e :: os, τ, h => ⟨h.1, evs_sorted_of_ops os e.t h.2⟩
-
 theorem evs_inRange : ∀ (os : List Op), timesInRange os = true → ∀ e ∈ Op.evs os, e.t ≤ maxDuration
   | [], _, _, he => by simp [Op.evs] at he
   | .gc _ _ :: os, h, e, he => by
@@ -428,11 +471,27 @@ theorem evs_inRange : ∀ (os : List Op), timesInRange os = true → ∀ e ∈ O
     · exact h.1
     · exact evs_inRange os h.2 e he
 
+theorem runAt_length (cl : ClientLimiter) : ∀ (es : List Ev) , (cl.runAt es).length = es.length := by
+  intro es
+  induction es generalizing cl with
+  | nil => rfl
+  | cons e es ih => simp [ClientLimiter.runAt, ih]
+
 theorem run_length (cl : ClientLimiter) : ∀ (es : List Ev) , (cl.run es).length = es.length := by
   intro es
   induction es generalizing cl with
   | nil => rfl
   | cons e es ih => simp [ClientLimiter.run, ih]
+
+/-- without gc passes a history is its arrivals -/
+theorem runOps_noGc : ∀ (os : List Op), noGc os = true → ∀ (cl : ClientLimiter), cl.runOps os = cl.run (Op.evs os)
+  | [], _, _ => rfl
+  | .allow e :: os, h, cl => by
+    have h' : noGc os = true := by simpa [noGc] using h
+    show (cl.allowN e.addr e.t e.n).1 :: (cl.allowN e.addr e.t e.n).2.runOps os = _
+    rw [runOps_noGc os h']
+    rfl
+  | .gc _ _ :: os, h, _ => by simp [noGc] at h
 
 /-- ★ **model_meets_spec.**  For every configuration and every history the verdicts of the
     model satisfy the executable specification that is used as the oracle on the
@@ -446,13 +505,22 @@ theorem model_meets_spec (c : Opts) (os : List Op) :
     obtain ⟨⟨hs, hr⟩, hb⟩ := h
     rw [gc_transparent c os hs hb]
     have hsort := evs_sorted_of_ops os 0 (sortedFrom_of_sortedOps os hs)
+    rw [run_eq_at (Op.evs os) (ClientLimiter.new c) 0 (ClientLimiter.seenLe_new c 0) hsort]
     have hinv : (ClientLimiter.new c).Inv 0 := ClientLimiter.inv_new c (new_limit_pos c) 0
     have h1 := specBound_ok c ((specLimit c : Int) - 1 + (0 : Nat)) (by omega) (Op.evs os) (ClientLimiter.new c) 0 rfl hinv hsort
     have h2 := specNoSpur_ok c ((0 : Nat) : Int) (by omega) (Op.evs os) (ClientLimiter.new c) [] 0 rfl hinv
       (fun k => tight_new c _ (by omega) hb k 0) hsort (evs_inRange os hr)
-    have h2' : specNoSpuriousRefusal c ((0 : Nat) : Int) (Op.evs os) ((ClientLimiter.new c).run (Op.evs os)) = true := h2
-    simp only [specEvs, run_length, beq_self_eq_true, h1, h2', Bool.and_self]
-  · rfl
+    have h2' : specNoSpuriousRefusal c ((0 : Nat) : Int) (Op.evs os) ((ClientLimiter.new c).runAt (Op.evs os)) = true := h2
+    simp only [specEvs, runAt_length, beq_self_eq_true, h1, h2', Bool.and_self]
+  · split
+    · -- time stamps in any order, no gc passes
+      rename_i hg
+      have hrun : (ClientLimiter.new c).runOps os = (ClientLimiter.new c).run (Op.evs os) := runOps_noGc os hg _
+      rw [hrun]
+      have h1 := segBound_ok c ((specLimit c : Int) - 1 + (0 : Nat)) (by omega) (Op.evs os) (ClientLimiter.new c) rfl
+        (ClientLimiter.ok_new c)
+      simp only [run_length, beq_self_eq_true, h1, Bool.and_self]
+    · rfl
 
 /-- ★ **listener_model_meets_spec.**  For every burst and mask configuration (client rate
     1 token/s, no global limit) and every sequence of client operations (UDP queries, TCP / HTTP /
@@ -498,11 +566,14 @@ theorem pins_defaults :
 
 /-- `mask` unmaps, then masks IPv4 with `V4Mask` and IPv6 with `V6Mask`; `AllowN` keys the table
     by the masked address, creates `rate.NewLimiter(Limit, Burst)` for a missing key, and — with
-    the entry's lock held — skips an entry that gc has marked dead (reloading), records
-    `lastSeen = now` and asks the bucket at the caller's time -/
+    the entry's lock held — skips an entry that gc has marked dead (reloading), clamps the
+    caller's time stamp to the entry's `lastSeen` (repair f8b61d0: the bucket's clock never goes
+    back), records `lastSeen = now` and asks the bucket at that time -/
 theorem pins_mask :
     Facts.lim_mask_body = "{ addr = addr.Unmap() if addr.Is4() { return netip.PrefixFrom(addr, cl.opts.V4Mask).Masked().Addr() } if addr.Is6() { return netip.PrefixFrom(addr, cl.opts.V6Mask).Masked().Addr() } return netip.Addr{} }" ∧
-    Facts.lim_allowN_body = "{ key := cl.mask(addr) for { e, _ := cl.m.LoadOrCompute(key, func() *e { return &e{l: rate.NewLimiter(rate.Limit(cl.opts.Limit), cl.opts.Burst)} }) e.m.Lock() if e.dead { e.m.Unlock() continue } e.lastSeen = now ok := e.l.AllowN(now, n) e.m.Unlock() return ok } }" := ⟨rfl, rfl⟩
+    Facts.lim_allowN_body = "{ key := cl.mask(addr) for { e, _ := cl.m.LoadOrCompute(key, func() *e { return &e{l: rate.NewLimiter(rate.Limit(cl.opts.Limit), cl.opts.Burst)} }) e.m.Lock() if e.dead { e.m.Unlock() continue } if now.Before(e.lastSeen) { now = e.lastSeen } e.lastSeen = now ok := e.l.AllowN(now, n) e.m.Unlock() return ok } }" ∧
+    Facts.lim_clamp_cond = "now.Before(e.lastSeen)" ∧
+    Facts.lim_clamp_stmt = "now = e.lastSeen" := ⟨rfl, rfl, rfl, rfl⟩
 
 /-- `gc` (one locked region per entry): an entry is dropped only if it was last seen more than
     `entryTtl` ago *and* its bucket is full (`gcRequiresFull`, repair 0275661); it is marked
@@ -534,6 +605,15 @@ theorem pins_resource :
 
 /-- every admission point charges the *remote* address (D9: also the QUIC listener) with the cost of the table, and on refusal answers REFUSED / 503 / closes, before anything is handled -/
 theorem pins_admission :
+    Facts.lim_gnet_query_cond = "ccr > e.maxConcurrent || e.r.limiterAllowN(cc.remoteAddr.Addr(), costTCPQuery) != nil" ∧
+    Facts.lim_gnet_query_resp = "resp := mustHaveRespB(m, nil, dnsmsg.RCodeRefused, true, 0)" ∧
+    Facts.lim_gnet_query_write = "c.Write(resp)" ∧
+    Facts.lim_gnet_query_calls = 1 ∧
+    Facts.lim_fasthttp_branch = "if err := h.r.limiterAllowN(remoteAddr.Addr(), costHTTPQuery); err != nil { ctx.SetStatusCode(fasthttp.StatusServiceUnavailable) return }" ∧
+    Facts.lim_fasthttp_listener = "l = newListener(l, r.subLoggerForServer(\"server_fasthttp\", cfg.Tag), r.limiter, costTCPConn)" ∧
+    Facts.lim_fasthttp_calls = 1 ∧
+    Facts.lim_refused_opt_cond = "queryOpt(query) != nil" ∧
+    Facts.lim_refused_opt = "resp.Additionals = append(resp.Additionals, newEDNS0(udpSize))" ∧
     Facts.lim_udp_branch = "if err := s.r.limiterAllowN(remoteAddr.Addr(), costUDPQuery); err != nil { resp := mustHaveRespB(m, nil, dnsmsg.RCodeRefused, false, 0) s.writeResp(resp, remoteAddr, oobLocalAddr) pool.ReleaseBuf(resp) return }" ∧
     Facts.lim_udp_calls = 1 ∧
     Facts.lim_tcp_conn_addr = "netAddr2NetipAddr(c.RemoteAddr()).Addr()" ∧
@@ -563,13 +643,13 @@ theorem pins_admission :
     Facts.lim_quic_query_branch = "if err := s.r.limiterAllowN(remoteAddr.Addr(), costQUICQuery); err != nil { stream.Close() stream.CancelRead(0) continue }" ∧
     Facts.lim_gnet_conn_addr = "cc.remoteAddr.Addr()" ∧
     Facts.lim_gnet_conn_cost = "costTCPConn" ∧
-    Facts.lim_gnet_conn_ctx = "cc := &connCtx{ remoteAddr: netAddr2NetipAddr(c.RemoteAddr()), localAddr: netAddr2NetipAddr(c.LocalAddr()), idleTimer: time.AfterFunc(e.idleTimeout, func() { c.Close() }), }" ∧
+    Facts.lim_gnet_conn_ctx = "cc := &connCtx{ remoteAddr: netAddr2NetipAddr(c.RemoteAddr()), localAddr: netAddr2NetipAddr(c.LocalAddr()), }" ∧
     Facts.lim_gnet_conn_refused = "return nil, gnet.Close" ∧
     Facts.lim_post_cache_addr = "rc.RemoteAddr.Addr()" ∧
     Facts.lim_post_cache_cost = "costFromCache" ∧
     Facts.lim_post_up_addr = "rc.RemoteAddr.Addr()" ∧
     Facts.lim_post_up_cost = "costFromUpstream" ∧
-    Facts.lim_post_count = 2 := ⟨rfl, rfl, rfl, rfl, rfl, rfl, rfl, rfl, rfl, rfl, rfl, rfl, rfl, rfl, rfl, rfl, rfl, rfl, rfl, rfl, rfl, rfl, rfl, rfl, rfl, rfl, rfl, rfl, rfl, rfl, rfl, rfl, rfl, rfl, rfl, rfl⟩
+    Facts.lim_post_count = 2 := ⟨rfl, rfl, rfl, rfl, rfl, rfl, rfl, rfl, rfl, rfl, rfl, rfl, rfl, rfl, rfl, rfl, rfl, rfl, rfl, rfl, rfl, rfl, rfl, rfl, rfl, rfl, rfl, rfl, rfl, rfl, rfl, rfl, rfl, rfl, rfl, rfl, rfl, rfl, rfl, rfl, rfl, rfl, rfl, rfl, rfl⟩
 
 /-- the model's constants are the pinned ones -/
 theorem pins_model_constants :
@@ -578,6 +658,8 @@ theorem pins_model_constants :
     Point.cost .httpQuery = Facts.lim_costHTTPQuery ∧ Point.cost .quicQuery = Facts.lim_costQUICQuery ∧
     Point.cost .tcpConn = Facts.lim_costTCPConn ∧ Point.cost .tlsConn = Facts.lim_costTLSConn ∧
     Point.cost .httpConn = Facts.lim_costTCPConn ∧ Point.cost .httpsConn = Facts.lim_costTLSConn ∧
-    Point.cost .quicConn = Facts.lim_costQuicConn ∧ Point.cost .gnetConn = Facts.lim_costTCPConn := by decide
+    Point.cost .quicConn = Facts.lim_costQuicConn ∧ Point.cost .gnetConn = Facts.lim_costTCPConn ∧
+    Point.cost .gnetQuery = Facts.lim_costTCPQuery ∧ Point.cost .fasthttpConn = Facts.lim_costTCPConn ∧
+    Point.cost .fasthttpQuery = Facts.lim_costHTTPQuery := by decide
 
 end MosVerif.C15
